@@ -9,7 +9,7 @@ cd "$(dirname "$0")"
 export GOFLAGS=-mod=mod GOPROXY=off GOSUMDB=off GOTOOLCHAIN=local GOCACHE=/verif/.cache/go
 case "${1:-}" in
 verify)
-  src=$2; L=$3; P=$4; id="$P-$L"
+  src=$2; L=$3; P=$4; SL=${5:-$L}; id="$P-$SL"
   wt=$(mktemp -d /tmp/seedchk.XXXXXX); rmdir "$wt"
   git -C /repo worktree add -q --detach "$wt" HEAD || exit 2
   trap 'git -C /repo worktree remove --force "$wt" >/dev/null 2>&1' EXIT
